@@ -119,8 +119,18 @@ def gen_wait(rnd, *, timeouts=True, log_step=None, targeted_ext=True):
         replies = [{"delay": (tmo or 2) + rnd.choice([0, 0.5, 1]), "type": "Answer", "pay": {"key": "{v}"}}]
     elif style == "wrong_type":
         replies = [{"delay": d0, "type": "Answer2", "pay": {"key": "{v}"}}, {"delay": 1, "type": "Answer", "pay": {"key": "{v}"}}]
+    opaque = use_req and wait.get("wid") is not None and rnd.random() < 0.2
+    if opaque:
+        # a second requirement whose value is not JSON (a UUID): requirements mix JSON-able and opaque entries; every reply carries
+        # the right token, and a forged reply (right key, wrong token) arrives first
+        wait["req"] = {"key": "{v}", "tok": {"$uuid": 7}}
+        for rp_ in replies:
+            rp_["pay"]["tok"] = {"$uuid": 7}
+        if replies:
+            replies.insert(0, {"delay": replies[0]["delay"], "type": "Answer", "pay": {"key": "{v}", "tok": {"$uuid": 8}}})
+            replies[1] = dict(replies[1], delay=rnd.choice([0, 0.5]))
     spec = {"family": "wait", "steps": steps, "timeout": None, "responders": [{"on": "Ask", "replies": replies}] if replies else [],
-            "meta": {"n": n, "style": style, "timeout": tmo, "req": use_req}}
+            "meta": {"n": n, "style": style, "timeout": tmo, "req": use_req, "opaque_req": opaque}}
     ext = []
     if targeted_ext and log_step and rnd.random() < 0.4:
         ext.append({"at": rnd.choice([0.5, 1, 1.5, 2.5]), "type": "Answer", "target": "log", "pay": {"key": f"r>start.0.{rnd.randrange(n)}"}})
